@@ -276,6 +276,10 @@ def load_known(prop):
 
 
 def _load_mod(prop):
+    import logging
+
+    # pdfminer logs a warning for every malformed operand; keep check output readable
+    logging.getLogger("pdfminer").setLevel(logging.CRITICAL)
     return importlib.import_module("props." + prop.lower())
 
 
